@@ -15,11 +15,30 @@ import (
 	"github.com/tmpim/casket/zzverif/verifrt"
 )
 
-// zzClient is the client end; like net/http it drops bodies of 204/304 responses.
+// zzClient is the client end. Like net/http it drops bodies of 204/304 responses, takes the header
+// as it stands when the status is committed (later changes to the map do not reach the client), and
+// refuses body bytes beyond a declared Content-Length.
 type zzClient struct {
 	hdr    http.Header
+	sent   http.Header // snapshot at commit
 	status int
 	body   []byte
+}
+
+func (w *zzClient) commit(c int) {
+	w.status = c
+	w.sent = http.Header{}
+	for k, v := range w.Header() {
+		w.sent[k] = append([]string(nil), v...)
+	}
+}
+
+// Sent is the header the client received.
+func (w *zzClient) Sent() http.Header {
+	if w.sent == nil {
+		return w.Header() // nothing committed yet: net/http commits the header as it stands when the handler returns
+	}
+	return w.sent
 }
 
 func (w *zzClient) Header() http.Header {
@@ -30,15 +49,25 @@ func (w *zzClient) Header() http.Header {
 }
 func (w *zzClient) WriteHeader(c int) {
 	if w.status == 0 {
-		w.status = c
+		w.commit(c)
 	}
 }
 func (w *zzClient) Write(p []byte) (int, error) {
 	if w.status == 0 {
-		w.status = 200
+		w.commit(200)
 	}
 	if w.status == 204 || w.status == 304 {
 		return 0, http.ErrBodyNotAllowed
+	}
+	if cl := w.sent.Get("Content-Length"); cl != "" {
+		if n, err := strconv.Atoi(cl); err == nil && len(w.body)+len(p) > n {
+			room := n - len(w.body)
+			if room < 0 {
+				room = 0
+			}
+			w.body = append(w.body, p[:room]...)
+			return room, http.ErrContentLength
+		}
 	}
 	w.body = append(w.body, p...)
 	return len(p), nil
@@ -52,6 +81,7 @@ type zzInnerResp struct {
 	status   int
 	chunks   [][]byte
 	explicit bool
+	copies   bool // body sent with io.Copy from a plain reader (file server, ServeContent, fastcgi): uses the writer's ReadFrom if it has one
 }
 
 func zzDrawInner() zzInnerResp {
@@ -69,6 +99,9 @@ func zzDrawInner() zzInnerResp {
 	n := verifrt.IntRange("chunks", 0, 2)
 	for i := 0; i < n; i++ {
 		b.chunks = append(b.chunks, verifrt.Bytes("chunk", 1+verifrt.Tier()))
+	}
+	if n > 0 {
+		b.copies = verifrt.Bool("body-sent-with-io-copy")
 	}
 	return b
 }
@@ -100,7 +133,11 @@ func (h zzInner) ServeHTTP(w http.ResponseWriter, r *http.Request) (int, error) 
 		w.WriteHeader(b.status)
 	}
 	for _, c := range b.chunks {
-		w.Write(c)
+		if b.copies {
+			io.Copy(w, struct{ io.Reader }{bytes.NewReader(c)})
+		} else {
+			w.Write(c)
+		}
 	}
 	return 0, nil
 }
@@ -150,7 +187,7 @@ func VerifH18Transparent() {
 	zzInner{&b}.ServeHTTP(ref, r)
 
 	verifrt.Assert(w.status == ref.status, "status-unchanged")
-	enc := w.Header().Get("Content-Encoding")
+	enc := w.Sent().Get("Content-Encoding")
 	offered := strings.Contains(accept, "gzip") && !strings.Contains(accept, "gzip;q=0")
 	if strings.Contains(accept, "gzip;q=0") {
 		verifrt.Tag("gzip-item-with-zero-quality") // the input class of the recorded known finding
@@ -179,13 +216,13 @@ func VerifH18Transparent() {
 		// (a response without a body carries no coding at all; its headers are not constrained here)
 		verifrt.Assert(enc == b.cenc, "content-encoding-unchanged-when-not-applied")
 	}
-	if cl := w.Header().Get("Content-Length"); cl != "" {
+	if cl := w.Sent().Get("Content-Length"); cl != "" {
 		if w.status != 204 && w.status != 304 && (b.clen == 1 || applied) {
 			verifrt.Assert(cl == strconv.Itoa(len(w.body)), "content-length-absent-or-correct")
 		}
 	}
 	if applied {
-		vary := w.Header()["Vary"]
+		vary := w.Sent()["Vary"]
 		n := 0
 		for _, v := range vary {
 			if v == "Accept-Encoding" {
@@ -233,7 +270,7 @@ func VerifH18Negotiation() {
 	r := &http.Request{Method: "GET", URL: &url.URL{Path: "/a.txt"}, Header: http.Header{"Accept-Encoding": []string{accept}}}
 	w := &zzClient{}
 	g.ServeHTTP(w, r)
-	enc := w.Header().Get("Content-Encoding")
+	enc := w.Sent().Get("Content-Encoding")
 	if !offered {
 		verifrt.Assert(enc == "" && bytes.Equal(w.body, b.chunks[0]), "gzip-only-when-offered")
 	} else if enc == "gzip" {
